@@ -26,6 +26,7 @@ def run(run, model):
     run.do(rec.trace_only_unhappy, model, "C06.trace-only-unhappy")
     from . import msg as _msg
     run.do(_msg.no_nondeterminism, model, "C06.no-history")
+    run.do(_msg.eager_render, model)
     run.do(rec.comprehension_env, model)
     run.do(msg.args_listed, model, "C06.args-listed")
     run.do(msg.a_repr_rule, model, "C06.a-repr")
